@@ -10,6 +10,7 @@ from harness.translate import pyexpr, cbody
 PDFS_C = os.path.join(lib.REPO, 'dadi', 'DFE', 'PDFs.c')
 PDFS_PY = os.path.join(lib.REPO, 'dadi', 'DFE', 'PDFs.py')
 PDFS_PYX = os.path.join(lib.REPO, 'dadi', 'DFE', 'PDFs_cython.pyx')
+CACHE2D = os.path.join(lib.REPO, 'dadi', 'DFE', 'Cache2D_mod.py')
 
 class PTr(pyexpr.Tr):
     """pyexpr.Tr extended with the array idioms of PDFs.py, read entrywise at (i, j):
@@ -202,6 +203,7 @@ def obligations(ctx):
         ctx.obligation('generated obligation %s (source formula = hand model of Proofs/DFEPdf.v)' % n, rc == 0, 'translator', se[-500:] if rc else '')
     ctx.checker_cmds.append('coqc build/cases/C17_ob_*.v (regenerated from dadi/DFE/PDFs.c and PDFs.py)')
     wiring(ctx)
+    probe_obligation(ctx)
 
 def wiring(ctx):
     """PDFs.biv_* -> PDFs_cython.biv_* -> C: argument order and sizes"""
@@ -231,3 +233,48 @@ def wiring(ctx):
         ctx.obligation('PDFs.biv_* forward (xx, yy, params) as float arrays to PDFs_cython', ok, 'translator', '; '.join(why))
     except Exception as e:
         ctx.obligation('wiring of the compiled pdfs', False, 'translator', repr(e))
+
+# the symmetric-shortcut decision of Cache2D.integrate, as modelled by Model/DFE.v [allclose_sym] / [rtol_sym]:
+# exactly these three statements, inside integrate itself, and the only assignment of symmetric_dfe
+PROBE = ['testx = np.logspace(-2,2,3)',
+         'testout = sel_dist(testx, testx, params)',
+         'symmetric_dfe = np.allclose(testout, testout.T, atol=0, rtol=1e-12)']
+
+def probe_obligation(ctx):
+    name = 'Cache2D.integrate decides the symmetric shortcut by np.allclose(testout, testout.T, atol=0, rtol=1e-12) on sel_dist(testx, testx, params), testx = logspace(-2,2,3)'
+    try:
+        tree = ast.parse(open(CACHE2D).read())
+        cls = [n for n in tree.body if isinstance(n, ast.ClassDef) and n.name == 'Cache2D']
+        fns = [n for n in cls[0].body if isinstance(n, ast.FunctionDef) and n.name == 'integrate'] if len(cls) == 1 else []
+        if len(fns) != 1:
+            raise pyexpr.Refuse('Cache2D.integrate not found exactly once')
+        fn = fns[0]
+        why = []
+        want = [ast.dump(ast.parse(t).body[0]) for t in PROBE]
+        targets = ('testx', 'testout', 'symmetric_dfe')
+        found = {}
+        for node in ast.walk(fn):
+            if isinstance(node, ast.Assign):
+                for tg in node.targets:
+                    for nm in ast.walk(tg):
+                        if isinstance(nm, ast.Name) and nm.id in targets:
+                            found.setdefault(nm.id, []).append(node)
+            elif isinstance(node, (ast.AugAssign, ast.AnnAssign, ast.NamedExpr)) and isinstance(getattr(node, 'target', None), ast.Name) and node.target.id in targets:
+                found.setdefault(node.target.id, []).append(node)
+        for nm, w in zip(targets, want):
+            nodes = found.get(nm, [])
+            if len(nodes) != 1:
+                why.append('%s assigned %d times' % (nm, len(nodes)))
+            elif ast.dump(nodes[0]) != w:
+                why.append('%s is computed as `%s`' % (nm, ast.unparse(nodes[0])))
+        # the three statements are top-level statements of integrate, in this order, and the flag is only read afterwards
+        top = [ast.dump(st) for st in fn.body]
+        pos = [top.index(w) if w in top else -1 for w in want]
+        if -1 in pos or pos != sorted(pos):
+            why.append('probe statements are not top-level statements of integrate in the documented order')
+        uses = [n for n in ast.walk(fn) if isinstance(n, ast.Name) and n.id == 'symmetric_dfe' and isinstance(n.ctx, ast.Load)]
+        if len(uses) != 2:
+            why.append('symmetric_dfe read %d times (expected: edge weights, third corner)' % len(uses))
+        ctx.obligation(name, not why, 'translator', '; '.join(why))
+    except Exception as e:
+        ctx.obligation(name, False, 'translator', repr(e))
